@@ -191,7 +191,7 @@ def run_session(ctx, tr, d, stores, hist, k, mod=None):
         kid = KIDS[(k + 3 * n) % len(KIDS)]
         pt = envgen.blob([17, 0, 33, 4096, 1][(k + n) % 5], 1000 * k + n)
         try:
-            payload, tag, info_b, dg, ln = obj.encrypt_and_generate(pt, op["name"], kid, str(d / op["ctx"]), SuitDigestAlgorithms(halg),
+            payload, tag, info_b, dg, ln = obj.encrypt_and_generate(pt, {"a": "a", "b": "a.v2"}[op["name"]], kid, str(d / op["ctx"]), SuitDigestAlgorithms(halg),
                                                                     SuitKWAlgorithms("direct"), kms)
             sz = str(ln).encode()
         except Exception as e:
@@ -207,9 +207,11 @@ def setup_stores(d):
     for c in ("c1", "c2"):
         (d / c).mkdir(parents=True, exist_ok=True)
         stores[c] = {}
-        for name in ("a", "b"):
+        # the model's key names a, b are realised as "a" and "a.v2": a legal key name with a dot whose stem is ANOTHER key of the
+        # same directory (a name is the whole string, not its stem)
+        for name, real in (("a", "a"), ("b", "a.v2")):
             kb = os.urandom(32)
-            (d / c / f"{name}.bin").write_bytes(kb)
+            (d / c / f"{real}.bin").write_bytes(kb)
             stores[c][name] = kb
     return stores
 
